@@ -59,7 +59,15 @@ class HeapMixin:
         if nullable:
             fact = z3.Or(ref == prelude().null, fact)
         else:
-            st.pc.append(ref != prelude().null)
+            fact = z3.And(ref != prelude().null, fact)
+        if self.spec_mode:
+            # evaluating a contract expression happens on a scratch copy of the state; allocatedness of what it
+            # reads is a fact about the real state (same as a read in the code), so hand it to ev_spec_val
+            if self._spec_facts is not None and not self.bound_vars:
+                if st.guards:
+                    fact = z3.Implies(z3.And(*st.guards), fact)
+                self._spec_facts.append(fact)
+            return
         st.pc.append(fact)
 
     # ---- class / field tables ---------------------------------------------------------
